@@ -61,11 +61,18 @@ def build_attacker(scn):
         a['conf'][0]['recipient'] = 'https://evil.example/acs'
     if inner != 'unsigned':
         a['sig'] = sb.signature_template('a1', 'sha256')
-    doc = sb.response(spc.default_response(), '<saml:EncryptedAssertion>%s</saml:EncryptedAssertion>' % sb.assertion(a))
+    plain = ''
+    if scn.get('companion'):
+        c = spc.default_assertion(aid='a0', subject='user-companion')
+        c['sig'] = sb.signature_template('a0', 'sha256')
+        plain = sb.assertion(c)
+    doc = sb.response(spc.default_response(), plain + '<saml:EncryptedAssertion>%s</saml:EncryptedAssertion>' % sb.assertion(a))
+    if scn.get('companion'):
+        doc = sb.sign(doc, sb.NS_SAML, 'Assertion', 'a0', 'kIdp1')
     if inner != 'unsigned':
         doc = sb.sign(doc, sb.NS_SAML, 'Assertion', 'a1', 'kIdp1')
     if inner == 'badsig':
-        doc = sb.tamper_sigvalue(doc, 0)
+        doc = sb.tamper_sigvalue(doc, 1 if scn.get('companion') else 0)
     elif inner == 'forged_after_signing':
         doc = sb.tamper_text(doc, 'user-inner', 'user-forged')
     return sb.encrypt_element(doc, sb.xp('Response', 'EncryptedAssertion', 'Assertion'), 'kSpEnc1')
